@@ -5,7 +5,8 @@ SPEC = {
  "C01": dict(judge="c01", flags_a=["--tokens", "--sort"], flags_b=["--tokens", "--sort", "--ranges"], mode_a="plain", mode_b="wild",
              rule="programs from the grammar-directed generator (6 dialects; every statement and expression kind; random blanks, tabs, newlines, CRLF; semicolons; require blocks; ignore directives), each under its default "
                   "configuration and 2 random configurations (6 column widths incl. 1 and usize::MAX, both indent types, 4 indent widths, both line endings, all quote / call-parentheses / collapse / space options, sort_requires); "
-                  "region A (seeded): comments at statement boundaries, and (second half) also before and after the commas of expression and argument lists; region B (fixed seed, listed per input): comments at any token boundary, byte ranges, plus the repository's test inputs of every dialect",
+                  "region A (seeded): comments at statement boundaries, and (second half) also before and after the commas of expression and argument lists; region B (fixed seed, listed per input): comments at any token boundary, byte ranges, plus the repository's test inputs of every dialect; "
+                  "and the operator-tree family of the C05 harness (operator pairs with parentheses at every position in 11 expression contexts at 4 widths, seeded)",
              corr="every output is re-parsed by full_moon under the same syntax; the Coq lexer model agrees with full_moon's tokenizer on every input and every output (token lists compared)"),
  "C02": dict(judge="c02", flags_a=["--nf", "--ranges"], flags_b=["--nf", "--ranges"], mode_a="plain", mode_b="wild",
              rule="same generator and configurations as C01, with byte ranges in region A too (sort_requires off, as the property says)",
@@ -24,11 +25,42 @@ SPEC = {
              corr="every quoted string token of the output satisfies the quote rule for the configured style (QuoteMore.needs on the output body)"),
 }
 
+def expr_family(res):
+    """C01 only: the operator-tree family of the C05 harness (every operator pair, parentheses at every position, 11
+    expression contexts, 4 widths): each output must parse again.  Returns (records, payloads)."""
+    import subprocess
+    n = 4000 if res.tier == "quick" else 100000
+    from concurrent.futures import ThreadPoolExecutor
+    def shard(i):
+        r = subprocess.run([SVH, "c05", "--depth", "1" if res.tier == "quick" else "2", "--random", str(n), "--seed", str(res.seed), "--shard", "%d/%d" % (i, NCPU)],
+                           stdout=subprocess.PIPE, stderr=subprocess.DEVNULL, text=True, env=ENV)
+        t, b = 0, []
+        for l in r.stdout.splitlines():
+            w = l.split()
+            if len(w) < 8 or w[0] != "E": continue
+            t += 1
+            if w[7] in ("noparse", "panic", "error", "parseerror") and len(b) < 5: b.append(w)
+        return t, b, r.returncode
+    total, bad, errs = 0, [], []
+    with ThreadPoolExecutor(NCPU) as ex:
+        for t, b, rc in ex.map(shard, range(NCPU)):
+            total += t; bad += b
+            if rc != 0: errs.append("svh c05 exited %d" % rc)
+    payloads = [dict(kind="input", check="output-does-not-parse" if w[7] == "noparse" else "formatter-" + w[7], region="A (seeded, operator-tree family)", family="expr",
+                     syntax=w[1], context=w[2], width=w[4], source_hex=w[5], source=bytes.fromhex(w[5].lstrip("#")).decode("utf8", "replace"), observed=" ".join(w[7:])[:2000], seed=res.seed) for w in bad[:3]]
+    if errs or total == 0: payloads.append(dict(kind="obligation", obligation=dict(correspondence="operator-tree family run", log="; ".join(errs) or "no records")))
+    return total, payloads
+
 def run_prop(res, prop, extra_obligations=1):
     sp = SPEC[prop]
     proof = proof_stage(res, prop, extra_obligations=extra_obligations)
     build_harness(); build_ml()
     ok, payloads = validate(res, prop, sp["judge"], sp["flags_a"], sp["flags_b"], sp["mode_a"], sp["mode_b"], region_a=sp.get("region_a", True), dirs=sp.get("dirs"))
+    if prop == "C01":
+        n_expr, more = expr_family(res)
+        payloads = more + payloads; ok = ok and not more
+        res.coverage["evaluations"] = res.coverage.get("evaluations", 0) + n_expr
+        res.coverage["input_distribution"]["operator_tree_family"] = dict(records=n_expr, failures=len(more))
     if proof["ok"] and ok: res.coverage["discharged"] = proof["discharged"] + extra_obligations
     res.coverage["rule"] = sp["rule"] + "; distinct cases are not deduplicated across configurations: non-trivial counts cases whose output differs from the input"
     res.coverage["correspondence"] = sp["corr"]
@@ -45,6 +77,10 @@ def run_prop(res, prop, extra_obligations=1):
 def replay(payload, prop):
     build_harness(); build_ml()
     sp = SPEC[prop]
+    if payload.get("family") == "expr":
+        r = sh([SVH, "c05", "--one", payload["syntax"], payload["context"], payload["source_hex"], str(payload["width"])], check=False)
+        print(r.stdout[:2000])
+        return 1 if any(l.split()[7:8] != ["ok"] for l in r.stdout.splitlines() if l.startswith("E ")) else 0
     if payload.get("source_hex"):
         h = [SVH, "run", "--one", payload["syntax"], payload["config"], payload["range"], payload["source_hex"]] + [f for f in payload.get("flags", []) if f in ("--tokens", "--nf", "--idem", "--trace")]
         lines, errs = run_pipeline_sharded(lambda i, n: (h, [driver("drv_fmt"), sp["judge"]]), shards=1)
